@@ -110,18 +110,77 @@ def run(ctx):
                 for cls, name, data in cases:
                     if cls == "altered" and data == gram:
                         continue
-                    rx = c20.mk(code, auth)
-                    # order: zeroth gram first when it is not the one under test, so that signed grams can be verified
-                    seq = ([data] + rest) if gi == 0 else ([rest[0], data] + rest[1:])
-                    if gi != 0:
-                        rx.echos.append((rest[0], "src"))
+                    # order A: the zeroth gram first when it is not the one under test, so that signed grams can be verified;
+                    # order B (non-zeroth grams): the gram under test arrives before every other gram of its memo
+                    for order in (("A",) if gi == 0 else ("A", "B")):
+                        if order == "B" and cls == "intact":
+                            continue      # an intact signed gram ahead of its zeroth gram is the listed finding of C20
+                        rx = c20.mk(code, auth)
+                        seq = [data] + rest
+                        if gi != 0 and order == "A":
+                            rx.echos.append((rest[0], "src"))
+                            rx.serviceAllRx()
+                            seq = [data] + rest[1:]
+                        out, err = feed(rx, seq, memo)
+                        ctx.case((code, curt, gi, name, order))
+                        traces.append([{"cls": cls, "out": out}])
+                        detail.append({"code": code, "auth": auth, "curt": curt, "gram": gi if order == "A" else -gi, "mutation": name,
+                                       "datagram": data.hex(), "err": err, "rest": [x.hex() for x in rest], "memo": memo})
+    # two legitimate signers: one signs her own memo under the memo id of the other's memo.  Every delivered memo must be a
+    # (text, signer) pair that was really signed by that signer, in every interleaving
+    import pysodium
+    from hio.core.memo.memoing import Memoer, Keyage
+    seed2 = bytes(range(100, 132))
+    vk2, sk2 = pysodium.crypto_sign_seed_keypair(seed2)
+    vid2 = Memoer._encodeVID(vk2)
+    keep2 = dict(c20.keys()["keep"])
+    keep2[vid2] = Keyage(qvk=Memoer._encodeQVK(vk2), qss=Memoer._encodeQSS(seed2))
+    for (code, auth) in c20.codes():
+        if not auth:
+            continue
+        for curt in (False, True):
+            memo_v, grams_v = grams_for(code, True, curt)
+            size = max(len(g) for g in grams_v)
+            victim_mid = []
+            txa = c20.mk(code, True, curt, size=size)
+            txa._keep, txa.vid = keep2, vid2
+            # the other signer reuses the memo id seen on the wire
+            rxp = c20.mk(code, True)
+            mid = rxp.pick(bytearray(grams_v[0]))[0]
+            txa.makeMID = lambda mid=mid: mid
+            memo_a = ("forged " + memo_v)[:len(memo_v)]
+            grams_a = [bytes(g) for g in txa.rend(memo_a, vid2)]
+            pool = [("v", g) for g in grams_v] + [("a", g) for g in grams_a]
+            for _ in range(40 if ctx.quick else 1500):
+                seq = [rng.choice(pool) for _ in range(rng.choice([4, 6, 8]))]
+                if rng.random() < 0.5:
+                    seq = [("v", grams_v[0])] + seq
+                rx = c20.mk(code, True)
+                rx._keep = keep2
+                err, pairs = None, []
+                try:
+                    with core.watchdog():
+                        burst = rng.random() < 0.5
+                        for who, g in seq:
+                            rx.echos.append((g, "src-" + who))
+                            if not burst:
+                                rx.serviceAllRx()
                         rx.serviceAllRx()
-                        seq = [data] + rest[1:]
-                    out, err = feed(rx, seq, memo)
-                    ctx.case((code, curt, gi, name))
-                    traces.append([{"cls": cls, "out": out}])
-                    detail.append({"code": code, "auth": auth, "curt": curt, "gram": gi, "mutation": name, "datagram": data.hex(), "err": err,
-                                   "rest": [x.hex() for x in rest], "memo": memo})
+                    pairs = [(t, v) for (t, s_, v) in rx.inbox]
+                except core.Hang:
+                    err = "serviceAllRx() did not return"
+                except Exception as ex:
+                    err = "serviceAllRx() raised %s: %s" % (type(ex).__name__, ex)
+                genuine = {(memo_v, c20.keys()["vid"]), (memo_a, vid2)}
+                out = "raised" if err else ("dropped" if not pairs else
+                                            ("delivered-original" if all(p in genuine for p in pairs) else "delivered-altered"))
+                ctx.case(("impersonation", code, curt, tuple((w, grams_v.index(g) if w == "v" else grams_a.index(g)) for w, g in seq)))
+                traces.append([{"cls": "altered", "out": out}])
+                detail.append({"code": code, "auth": True, "curt": curt, "gram": None,
+                               "mutation": "two signers, same memo id: %s -> delivered %s" % (
+                                   [(w, grams_v.index(g) if w == "v" else grams_a.index(g)) for w, g in seq],
+                                   [(t[:12], (v or "None")[:6]) for t, v in pairs]),
+                               "datagram": "", "err": err, "rest": [], "norerun": True})
     # random datagrams
     for auth in (False, True):
         code = c20.codes()[2 if auth else 0][0]
@@ -160,9 +219,12 @@ def run(ctx):
 
 def replay_case(ctx, case):
     d = case["detail"]
+    if d.get("norerun"):
+        print("this case is a random interleaving of two signers' grams: rerun the check")
+        return ["(rerun the check)"] if False else []
     rx = c20.mk(d["code"], d["auth"])
     seq = [bytes.fromhex(d["datagram"])] + [bytes.fromhex(x) for x in d["rest"]]
-    if d["gram"]:
+    if d["gram"] and d["gram"] > 0:
         rx.echos.append((seq[1], "src"))
         rx.serviceAllRx()
         seq = [seq[0]] + seq[2:]
